@@ -278,7 +278,7 @@ func c12Gen(g *hx.Gen) {
 	// (1) every interleaving of small workloads
 	type wl struct{ c, n int }
 	small := []wl{{1, 2}, {2, 3}, {1, 3}}
-	capPer := g.Scale(400, 20000)
+	capPer := g.Scale(1200, 30000)
 	for _, w := range small {
 		ty := "i"
 		if g.Chance(0.5) {
@@ -304,7 +304,7 @@ func c12Gen(g *hx.Gen) {
 		}
 	}
 	// (2) random walks on larger workloads, (3) probes
-	n := g.Scale(500, 20000)
+	n := g.Scale(900, 20000)
 	for k := 0; k < n && !g.Done(); k++ {
 		c := g.Pick(1, 2, 2, 3, 4)
 		chunks := g.Range(1, 4)
